@@ -117,6 +117,7 @@ def make_run(run, schedule, policy, max_steps):
                     s.point(('await-progress',), blocker=lambda: progress(s, 'J2') or not agent2._thread._ct or agent2._thread._ct.finished)
                     s.mark('second-progress', progress(s, 'J2'))
                     agent2.request_stop()
+                    s.mark('second-stopped')
                 agent2._thread.join()
                 s.mark('second-joined')
             run.phase = 'end'
@@ -287,7 +288,9 @@ def judge(run, s, outcome):
     stops = []
     reqs = [(i, value[1]) for i, (step, lab, kind, name, value) in enumerate(log) if kind == 'mark' and name == 'request_stop' and lab == 'R']
     for n, (i, target) in enumerate(reqs):
-        done = next((j for j in range(i, len(log)) if log[j][1] == 'R' and log[j][2] == 'write' and log[j][3] == '_keep_going'), None)
+        # stop() has completed when the requester is back from the call: its next mark
+        done = next((j for j in range(i + 1, len(log)) if log[j][1] == 'R' and log[j][2] == 'mark'
+                     and log[j][3] in ('stopped', 'second-stopped')), None)
         if run.scenario == 'agent':
             jl = 'J%d' % (n + 1)
         else:
@@ -357,7 +360,11 @@ def judge(run, s, outcome):
         facts['queue_len'] = q_len
         targets = facts['targets']
         if run.stop_kind == 'stop_all':
-            if 'J2' in threads and was_queued_at_clear(log):
+            started_after = [e for e in log[idx['stopped']:] if e[2] == 'thread_start' and str(e[3]).startswith('J')]
+            if started_after:
+                out.append(('C09/stop-all-next-job-started', 'stop-all: job thread %s was started after stop-all had returned (queue length then: %d)'
+                            % (started_after[0][3], q_len)))
+            elif 'J2' in threads and was_queued_at_clear(log):
                 out.append(('C09/stop-all-next-job-started', 'stop-all: the second job was still queued when the queue was cleared, yet it was started'))
             if q_len != 0:
                 out.append(('C09/stop-all-queue-not-empty', 'stop-all left %d job(s) in the queue' % q_len))
